@@ -33,9 +33,9 @@ Proof. exact DiskCor.revert_truncates_to_root. Qed.
 Print Assumptions c09_truncate_only_to_root.
 
 (* ---------------------------------------------------------------------------------------------- *)
-(* REGENERATED FROM THE SOURCE ON EVERY RUN (Decisions.v): every record goes to the offset read from Store.size at the
+(* REGENERATED FROM THE SOURCE ON EVERY RUN (DecBase.v, Dec*.v): every record goes to the offset read from Store.size at the
    moment of the write (after the before-write hook has run), and FlushRevert truncates once, after its scan *)
-From GK Require Import GExpr Decisions.
+From GK Require Import GExpr Generated DecBase DecWrite DecRevert.
 From Coq Require Import List.
 Import ListNotations.
 
@@ -48,7 +48,7 @@ Theorem c09_item_write_order_is_source :
   before "atomic.StoreInt64" "iloc.setLoc" l = true /\
   before "iItem.NumValBytes" "c.store.file.WriteAt" l = true /\
   before "c.store.callbacks.BeforeItemWrite" "iItem.NumValBytes" l = true.
-Proof. exact Decisions.item_write_order. Qed.
+Proof. exact DecWrite.item_write_order. Qed.
 Print Assumptions c09_item_write_order_is_source.
 
 Theorem c09_node_write_order_is_source :
@@ -56,7 +56,7 @@ Theorem c09_node_write_order_is_source :
   before "o.getSize" "o.file.WriteAt" l = true /\
   before "o.file.WriteAt" "o.setSize" l = true /\
   before "o.setSize" "nloc.setLoc" l = true.
-Proof. exact Decisions.node_write_order. Qed.
+Proof. exact DecWrite.node_write_order. Qed.
 Print Assumptions c09_node_write_order_is_source.
 
 Theorem c09_revert_order_is_source :
@@ -64,5 +64,5 @@ Theorem c09_revert_order_is_source :
   before "s.readRootsScan" "s.file.Truncate" l = true /\
   count_occ string_dec l "s.file.Truncate" = 1%nat /\
   before "atomic.AddInt64" "s.readRootsScan" l = true.
-Proof. exact Decisions.revert_order. Qed.
+Proof. exact DecRevert.revert_order. Qed.
 Print Assumptions c09_revert_order_is_source.
